@@ -1,6 +1,7 @@
 import AspireModel.Props.C08
 import AspireModel.Props.C09
 import AspireModel.Lemmas.TieWeights
+import AspireModel.Gen.SrcLoop
 /-
   C08, tie to the source: `SMCSamples.log_evidence_ratio` and `log_evidence_ratio_variance` as translated from
   `/repo/src/aspire/samples.py` on every run are the model's `logEvidenceRatio` / `logEvidenceRatioVar`
@@ -51,6 +52,21 @@ theorem src_ratio_is_log_mean_incremental_weight (β β' : ℝ) (ll lp lq : List
       = Real.log ((C09.incW β β' ll lp lq).sum / ((logW ll lp lq).length : ℝ)) := by
   rw [tie_log_evidence_ratio β β' ll lp lq n hn]
   exact ratio_is_log_mean_incremental_weight β β' ll lp lq h
+
+/-- the two statements after the loop, `samples.log_evidence = sum(history.log_norm_ratio)` and
+    `samples.log_evidence_error = sqrt(sum(history.log_norm_ratio_var))`, as translated from the source -/
+theorem tie_final_evidence (hb ratio var : List ℝ) :
+    Gen.final_evidence hb ratio var = (ratio.sum, Real.sqrt var.sum) := by
+  simp [Gen.final_evidence, Gen.vsum]
+
+/-- hence for every kit whose `sumS` / `rootSumS` are `sum` / `sqrt ∘ sum` the evidence and error returned by a
+    finished run of the model are what the translated statements compute from the recorded series -/
+theorem src_evidence_is_sum_of_recorded_ratios {P : Type} {k : Kit P ℝ} {cfg : SmcCfg ℝ} {flag : Bool}
+    {st0 : St P ℝ} {steps : List (Step P)} {r : Result P ℝ}
+    (hs : ∀ l, k.sumS l = l.sum) (hr : ∀ l, k.rootSumS l = Real.sqrt l.sum)
+    (h : runFrom k cfg flag st0 steps = .done r) :
+    (r.logZ, r.logZerr) = Gen.final_evidence r.st.hist.beta r.st.hist.ratio r.st.hist.var := by
+  rw [tie_final_evidence, (runFrom_evidence h).1, (runFrom_evidence h).2, hs, hr]
 
 example : logW [0, 1] [0, 0] [0, (0 : ℝ)] ≠ [] := by simp [logW]
 
